@@ -776,6 +776,9 @@ func c23Mutate(t *rapid.T, tr *c23Tree, class string, isCheck bool, signHash fun
 	switch class {
 	case "longform-string":
 		it := c23Pick(t, "mutAt", c23Select(tr, func(it *c23Item) bool { return !it.list && len(it.payload()) < 56 }))
+		if it == nil {
+			return c23Mutate(t, tr, "trailing-top", isCheck, signHash)
+		}
 		it.long = 1 + sim.U(t, "extraLen", 2)
 		return top.enc(), class, c23MustDecode
 	case "longform-list":
@@ -787,6 +790,9 @@ func c23Mutate(t *rapid.T, tr *c23Tree, class string, isCheck bool, signHash fun
 		return top.enc(), class, c23MustDecode
 	case "len-leading-zero":
 		it := c23Pick(t, "mutAt", c23Select(tr, func(it *c23Item) bool { return len(it.payload()) >= 56 }))
+		if it == nil {
+			return c23Mutate(t, tr, "longform-string", isCheck, signHash)
+		}
 		min := len(c23Header(it.list, len(it.payload()), 0)) - 1
 		it.long = min + 1 + sim.U(t, "extraLen", 8-min)
 		return top.enc(), class, c23MustDecode
